@@ -97,7 +97,7 @@ FLOORS = {  # ~40 % of what the unchanged tree produces at quick seed 0 (see evi
         "broadcast_shape:trend:accepted": 44, "broadcast_shape:vector:accepted": 50, "broadcast_shape:vector_of:accepted": 9,
         "dtype_invariance:mixed_components:integer_component=0": 17, "dtype_invariance:mixed_components:integer_component=1": 24,
         "dtype_invariance:mixed_components:vector": 31, "dtype_invariance:mixed_components:vector_of": 10,
-        "dtype_invariance:mixed_components:weights_too": 19, "groups:Chain_of_Vector": 3,
+        "dtype_invariance:mixed_components:weights_too": 19, "groups:Chain_of_Vector": 3, "option_spelling:documented_defaults": 5,
     },
     "thorough": {
         "eval:broadcast_shape": 5060, "eval:dtype_invariance": 12100, "eval:extra_coords_ignored": 2360, "eval:fitted_model_owns_its_data": 920,
@@ -154,6 +154,7 @@ FLOORS = {  # ~40 % of what the unchanged tree produces at quick seed 0 (see evi
         "dtype_invariance:mixed_components:integer_component=0": 340, "dtype_invariance:mixed_components:integer_component=1": 480,
         "dtype_invariance:mixed_components:vector": 620, "dtype_invariance:mixed_components:vector_of": 200,
         "dtype_invariance:mixed_components:weights_too": 380, "groups:Chain_of_Vector": 60, "large:n_queries=20011": 4,
+        "option_spelling:documented_defaults": 100,
     },
 }
 JOBS = {"quick": 1, "thorough": 16}
@@ -218,7 +219,7 @@ def install(tap, run):
             run.count("nested_fit_calls")
 
     tap.method(vbase.BaseGridder, "predict", post=post_predict, subclasses=True)
-    tap.method(vbase.BaseGridder, "fit", post=post_fit, subclasses=True)
+    tap.method(vbase.BaseGridder, "fit", post=post_fit, subclasses=True, documented={"weights": None})
 
 
 # ----------------------------------------------------------------------
@@ -1383,6 +1384,10 @@ def _stream_spelling(run, rng, verde, index):
             variants.append(("k=" + label, lambda kk=kk: verde.KNeighbors(k=kk)))
             variants.append(("positional k=" + label, lambda kk=kk: verde.KNeighbors(kk)))
             variants.append(("set_params(k=%s)" % label, lambda kk=kk: verde.KNeighbors().set_params(k=kk)))
+        if k == 1:  # the documented defaults: k=1, reduction=numpy.mean
+            variants.append(("no arguments (documented defaults)", lambda: verde.KNeighbors()))
+        variants.append(("reduction left out (documented default numpy.mean)", lambda: verde.KNeighbors(k=k)))
+        model = Model("neighbors", "KNeighbors(k=%d, reduction=np.mean)" % k, lambda: verde.KNeighbors(k=k, reduction=np.mean), linear=True, k=k)
     elif kind == 3:
         degree = int(rng.integers(0, 4))
         model = Model("trend", "Trend(%d)" % degree, lambda: verde.Trend(degree), linear=True, degree=degree)
@@ -1403,6 +1408,8 @@ def _stream_spelling(run, rng, verde, index):
             variants.append(("rescale=" + label, lambda value=value: cls(rescale=value)))
             variants.append(("positional rescale=" + label, lambda value=value: cls(value)))
             variants.append(("set_params(rescale=%s)" % label, lambda value=value: cls(rescale=not flag).set_params(rescale=value)))
+        if not flag:  # the documented default: rescale=False
+            variants.append(("no arguments (documented defaults)", lambda: cls()))
     conf = {"gridder": model.label, "params": {k: v for k, v in model.params.items() if k != "force_coords"}}
     wit0 = dict(conf, east=east, north=north, data=list(data), weights=None if weights is None else list(weights), query_east=qe, query_north=qn)
     try:
@@ -1430,6 +1437,8 @@ def _stream_spelling(run, rng, verde, index):
             continue
         run.evaluated("option_spelling")
         run.count("option_spelling:" + model.kind)
+        if "documented default" in label:
+            run.count("option_spelling:documented_defaults")
         run.count("option_spelling:" + ("set_params" if label.startswith("set_params") else "positional" if label.startswith("positional") or model.kind == "vector" else "keyword"))
         worst = _compare_refit(run, "option_spelling", model.label, "options spelled as " + label, base, got, 64 * EPS * refm["terms"], tol_cond, informative, wit,
                                "spelling:" + model.kind)
